@@ -115,9 +115,9 @@ def main():
     k = 0
     for P, N in ((2, 2), (2, 3), (3, 2), (4, 2), (2, 4), (3, 3)):
         for init, mx in ((2, 16), (4, 32), (4, 64), (64, 128)):
-            for temps in ([1.0], [0.3, 1.0], [0.2, 0.6, 1.0]):
+            for temps in ([1.0], [0.3, 1.0], [0.2, 0.6, 1.0], [0.0, 1.0], [0.0, 0.5, 1.0]):      # 0.0: a flat chain (likelihood without weight)
                 k += 1
-                if quick and k % 4:
+                if quick and k % 4 and not (temps[0] == 0.0 and k % 3 == 0):
                     continue
                 at.append({"op": "assemble_trace", "P": P, "N": N, "seed": ck.seed * 977 + k, "init": init, "max": mx, "temps": temps,
                            "steps": 8 if quick else 25, "F": [0.0, 0.2][k % 2]})
@@ -209,10 +209,10 @@ def main():
     # ---- trajectory clause -------------------------------------------------------------
     tj = []
     for s in range(4 if quick else 16):
-        tj.append(({"op": "trajectory", "P": 2 + s % 3, "N": 3 + s % 2, "seed": ck.seed * 7 + s, "modes": [-1, 0, 10**9], "temps": [[1.0], [0.3, 1.0], [0.2, 0.6, 1.0]][s % 3],
+        tj.append(({"op": "trajectory", "P": 2 + s % 3, "N": 3 + s % 2, "seed": ck.seed * 7 + s, "modes": [-1, 0, 10**9], "temps": [[1.0], [0.3, 1.0], [0.2, 0.6, 1.0], [0.0, 1.0]][s % 4],
                     "steps": 60 if quick else 300}, "jit"))
     for s in range(2 if quick else 8):
-        tj.append(({"op": "trajectory", "P": 2 + s % 2, "N": 3, "seed": ck.seed * 7 + 100 + s, "modes": [-1, [2, 16], [4, 32], 0], "temps": [[1.0], [0.3, 1.0]][s % 2],
+        tj.append(({"op": "trajectory", "P": 2 + s % 2, "N": 3, "seed": ck.seed * 7 + 100 + s, "modes": [-1, [2, 16], [4, 32], 0], "temps": [[1.0], [0.0, 0.3, 1.0]][s % 2],
                     "steps": 12 if quick else 40}, "py"))
     for mode in ("jit", "py"):
         tt = [t for t, m in tj if m == mode]
